@@ -301,4 +301,8 @@ def run(F, rep):
     from engines import rule_loop_state
     rule_loop_state(F, rep, 'C13.S1', lambda g: g.file.endswith('/annotator.cpp'), 'annotator.cpp')
 
+    # ------------------------------------------------------------------ every element of a collection is handled
+    from engines import rule_visit_all
+    rule_visit_all(F, rep, 'C13.Y1', lambda g: g.file.endswith('/annotator.cpp'), 15, 'annotator.cpp')
+
 
